@@ -3,12 +3,15 @@
 
 extern crate iceoryx2_bb_loggers;
 
+mod exec;
 mod spsc;
+mod uis;
 
 fn main() {
     let args = vlib::Args::from_env();
     match args.positional(0).as_deref() {
         Some("spsc") => spsc::main(&args),
+        Some("uis") => uis::main(&args),
         other => {
             eprintln!("unknown sub-command {other:?}");
             std::process::exit(2);
